@@ -87,7 +87,7 @@ NAMED = [S(C, SH, I, L), S(F, F, F), S(F, F, F, F), S(I, F, D), S(D, C), S(C, D)
          U(L, D), U(F, I), U(A(F), D), U(A(F), L), U(A(I), A(F)), U(A(D), A(L)), U(A(L), C), U(S(F, F), D), U(S(I, F), D), S(U(F, I), D),
          S(S(F, F), S(F, F)), S(S(I, F), D), S(S(C, C), S(SH,), F), S(U(D, L), F)]
 BIG = [S(L, L, L), S(D, D, D), S(L, D, L), S(A(L), C), S(A(D), F), S(C, L, L), U(A(L), S(L, L, C)), S(A(D), A(D)), S(A(L), A(L), A(L), A(L))]
-X87 = [S(LD), S(D, LD), U(LD, L), S(LD, C), U(LD, A(D))]
+X87 = [S(LD), S(D, LD), U(LD, L), S(LD, C), U(LD, A(D)), S(LD, LD), S(A(LD)), S(S(LD), LD), U(A(LD), C)]   # only the first is X87-class: every other one is MEMORY
 
 
 def enum_types(tier):
